@@ -64,17 +64,6 @@ def main(tier):
                 run.ob(txt == rtxt, "syntax|fn|%s|%s" % (name, ev), "C15 parser arm for a shared function is the same in every evaluator", "%s vs %s, function %r" % (ev, rev, name), "%s vs %s" % (txt[:160], rtxt[:160]))
             else:
                 ref[key] = (ev, txt)
-        for fname in ("generate_ast", "get_enclosed_elements_with_impl_mult", "check_paren", "function_static_arguments", "find_item_list", "get_next_token", "parse"):
-            f = m.tb.fn("::parser::Parser::" + fname)
-            if f is None:
-                continue
-            txt = erase(T.show(m.tb.fn_term(f)))
-            key = ("shape", fname)
-            if key in ref:
-                rev, rtxt = ref[key]
-                run.ob(txt == rtxt, "syntax|shape|%s|%s" % (fname, ev), "C15 the parser skeleton is identical in every evaluator", "%s vs %s: %s" % (ev, rev, fname), "terms differ")
-            else:
-                ref[key] = (ev, txt)
     # 2. number <-> i64
     if "eval_number" in models and "eval_i64" in models:
         mn, mi = models["eval_number"], models["eval_i64"]
@@ -158,6 +147,11 @@ def main(tier):
             base = lambda n: re.sub(r"^checked_", "", n.split("::")[-1])
             ok = bool(mn_) and bool(mf_) and (base(mf_[0]) in [base(x) for x in mn_] or (s == "abs(" and "norm" in [base(x) for x in mn_]))
             run.ob(ok, "routing|%s|%s" % (ev, s), "C15 the same name is routed to the same-named operation in both evaluators (numerical agreement trusted)", "%s vs eval_f64 %r" % (ev, s), "%s vs %s" % (mn_, mf_))
+    from .common import check_chain
+    for ev in ("eval_complex", "eval_decimal"):
+        if ev in models:
+            for (kind, s_) in sorted(TABLES[ev]):
+                check_chain(run, models[ev], kind, s_, "C15", "C15 %s routes the operator/function to the operation of the same meaning as eval_f64 (numerical agreement trusted)" % ev)
     report_issues(run, models, tables={"T_eval", "T_prim", "T_lex", "T_loop"})
     run.floor("evaluators analysed", len(models), 5)
     run.floor("obligations", run.obligations, 250)
